@@ -3,7 +3,7 @@
 From Coq Require Import List NArith Arith.
 From DS Require Import Gen.Constants Base.Bytes Base.Hash Base.Sched Model.Assemble Model.Clone
      Model.VerifyIndex Model.Sequencer Proofs.AssembleProofs Proofs.CloneProofs Proofs.SequencerProofs
-     Proofs.AssembleSeqProofs.
+     Proofs.AssembleSeqProofs Proofs.AssembleLive.
 Import ListNotations.
 
 (* SAFETY.  For every index, every plan that tiles it, every initial content of the (truncated)
@@ -107,6 +107,21 @@ Theorem C01_assemble_safe_seq : forall (H : bytes -> id) (idx : Assemble.index) 
       all_finished s = true -> a_file s = blob \/ Collision H.
 Proof. exact assemble_safe_seq. Qed.
 Print Assumptions C01_assemble_safe_seq.
+
+(* NO DEAD END.  When the store holds a chunk with the right digest and size for every row, then
+   from EVERY reachable state of the assembly (whatever the seeds wrote, whichever jobs were
+   started, validated or finished in whatever interleaving) there is a continuation after which
+   all jobs are finished -- start the idle jobs, take the rows of the unfinished jobs from the
+   store, finish.  With C01_assemble_safe the file then is the blob. *)
+Theorem C01_assemble_can_finish : forall (H : bytes -> id) (idx : Assemble.index) (plan : list (nat * nat)),
+  plan_ok idx plan ->
+  forall store : nat -> bytes,
+  (forall i, i < length idx -> N.eqb (H (store i)) (id_of idx i) = true /\ length (store i) = size_of idx i) ->
+  forall file0 (sched : list event), length file0 = start_of idx (length idx) ->
+  let s := run (Assemble.step H idx plan) sched (Assemble.init plan file0) in
+  exists cont, all_finished (run (Assemble.step H idx plan) cont s) = true.
+Proof. exact assemble_can_finish. Qed.
+Print Assumptions C01_assemble_can_finish.
 
 (* Non-vacuity: target rows 1 2 3 1 2; a null seed, a seed (9 1 2 3) without reflinks, a reflink
    seed (2 3 1 2 4).  Rows 0-2 and 3-4 come from seed 1 (ties go to the first seed); with seed 1
